@@ -11,12 +11,19 @@ enumerates every execution whose number of deviations is within the bound.
 from .drive import HarnessError
 
 
-class Ctx:
-    __slots__ = ("prefix", "guard", "choices", "points", "costs")
+class RootOutOfRange(Exception):
+    """The root prefix of a shard names an alternative that this
+    implementation does not offer (the sub-tree does not exist here; the
+    sibling shards cover the alternatives that do)."""
 
-    def __init__(self, prefix=(), guard=None):
+
+class Ctx:
+    __slots__ = ("prefix", "guard", "choices", "points", "costs", "root_len")
+
+    def __init__(self, prefix=(), guard=None, root_len=0):
         self.prefix = prefix
         self.guard = guard  # recorded (label, n) for the prefix positions
+        self.root_len = root_len
         self.choices = []
         self.points = []
         self.costs = []
@@ -28,6 +35,8 @@ class Ctx:
         i = len(self.choices)
         if i < len(self.prefix):
             c = self.prefix[i]
+            if c >= n and i < self.root_len:
+                raise RootOutOfRange()
             if c >= n:
                 raise HarnessError(
                     "replay divergence at point %d (%r): choice %d of %d"
@@ -59,6 +68,7 @@ class Stats:
         self.capped = False
         self.double_runs = 0
         self.max_deviations_seen = 0
+        self.root_missing = False
 
     def merge(self, other):
         self.executions += other.executions
@@ -90,8 +100,20 @@ def explore(run, bound=None, max_executions=None, double_every=50, on_exec=None,
         if max_executions is not None and stats.executions >= max_executions:
             stats.capped = True
             break
-        ctx = Ctx(prefix, guard)
-        obs, violations = run(ctx)
+        ctx = Ctx(prefix, guard, root_len)
+        try:
+            obs, violations = run(ctx)
+        except RootOutOfRange:
+            stats.root_missing = True
+            continue
+        if len(ctx.choices) < len(prefix) and len(prefix) <= root_len:
+            # the execution ended before reaching the decision this shard is
+            # rooted at: it is the same execution in every sibling shard and
+            # is judged in the first one only
+            if any(prefix[len(ctx.choices):]):
+                stats.root_missing = True
+                continue
+            prefix = tuple(ctx.choices)
         if len(ctx.choices) < len(prefix):
             raise HarnessError(
                 "replay divergence: execution ended after %d of %d recorded "
